@@ -31,25 +31,38 @@ pub struct Case {
     pub rscript: RScript,
 }
 
-/// The property's own exclusion: an element with a placeholder in its path (or an id outside
-/// the specification) directly after the end of an unknown-size master.
+/// The property's own exclusion, made precise: an element directly after the end of an unknown-size master that does
+/// not end it by the closing rule (placeholder paths, ids outside the specification), anything after an unknown-size
+/// master whose own path has a placeholder, and an element that by itself ends an unknown-size master it stands in.
 pub fn ambiguous(spec: &SpecTable, doc: &[Node]) -> bool {
-    fn rec(spec: &SpecTable, sibs: &[Node]) -> bool {
+    // chain: (id, unknown-size) of the masters enclosing `sibs`
+    fn rec(spec: &SpecTable, sibs: &[Node], chain: &mut Vec<(u64, bool)>) -> bool {
         for (i, n) in sibs.iter().enumerate() {
+            // nothing that by itself ends a master of the trailing unknown-size run it stands in
+            let rs = chain.iter().rposition(|x| !x.1).map_or(0, |k| k + 1);
+            if (rs..chain.len()).any(|k| crate::refdec::ends_master(spec, chain[k].0, n.id)) {
+                return true;
+            }
             if n.is_master() && n.enc.unknown {
                 if let Some(next) = sibs.get(i + 1) {
-                    if spec.get(next.id).map(|e| e.has_global()).unwrap_or(true) {
+                    // only something that ends N can follow N; a master with a placeholder path stays last
+                    if spec.get(n.id).map_or(true, |d| d.has_global()) || !crate::refdec::ends_master(spec, n.id, next.id) {
                         return true;
                     }
                 }
             }
-            if rec(spec, n.children()) {
-                return true;
+            if n.is_master() {
+                chain.push((n.id, n.enc.unknown));
+                let r = rec(spec, n.children(), chain);
+                chain.pop();
+                if r {
+                    return true;
+                }
             }
         }
         false
     }
-    rec(spec, doc)
+    rec(spec, doc, &mut Vec::new())
 }
 
 fn eligible_masters(spec: &SpecTable, doc: &[Node]) -> Vec<Vec<usize>> {
@@ -355,7 +368,7 @@ impl Check for C07 {
     }
     fn assumptions(&self) -> Vec<&'static str> {
         vec![
-            "unknown size is used only on masters whose declared path has no placeholder ('sibling' is declared-path equality, which is unambiguous only then)",
+            "the sweep flips only masters whose declared path has no placeholder; drawn documents also give unknown size to masters with placeholder paths, as last child of their parent",
             "the reference decoder (ref_decode) must read the tree back, otherwise the variant is skipped and counted as a harness anomaly",
         ]
     }
